@@ -1396,6 +1396,68 @@ CORPUS_SECRETS = [
 ]
 
 
+def _rtw_req(rng, w, si, enabler, tw, rv, tag):
+    idx = (w.imm_si + w.mut_si).index(si)
+    values = {"r": w.lease[idx % 3], "c": w.lease[(idx + 1) % 3], "w": enabler}
+    return {"route": "rtw", "si": si, "n": 0, "method": "POST", "path": route_path("rtw", si, 0),
+            "auth": [auth_value(w.swissnum).hex()],
+            "xauth": [x.hex() for x in mutate_secrets(rng, w, REQUIRED["rtw"], values, "ok")],
+            "body": ["q", {"tw": tw, "rv": rv}], "sw": "ok", "sec": tag, "pm": "ok"}
+
+
+def corpus_histories():
+    """The fixed corpus of request histories: one minimal history per known mechanism (the three seeded changes of
+    C30), built from a fixed random stream — independent of VERIF_SEED.  Returns [(name, swissnum, requests)]."""
+    import random
+    rng = random.Random("C30-fixed-corpus")
+    res = []
+    # --- C30-a: the upload secret of one in-progress share must not open another share of the same storage index
+    w = World(rng)
+    si = w.imm_si[1]
+    t0, t1 = w.target_of(si, 0), w.target_of(si, 1)
+    size = w.size[si]
+    reqs = [legit_request(rng, w, "allocate", si, 0, ["a", [0], size], upload=w.upload[0]),
+            legit_request(rng, w, "allocate", si, 1, ["a", [1], size], upload=w.upload[1]),
+            legit_request(rng, w, "write", si, 1, ["w", "bytes 0-0/*", t1[:1].hex()], upload=w.upload[0]),    # other share's secret
+            legit_request(rng, w, "abort", si, 0, ["n"], upload=w.upload[1]),                                  # other share's secret
+            legit_request(rng, w, "write", si, 0, ["w", "bytes 0-%d/*" % (size - 1), t0.hex()], upload=w.upload[0]),
+            legit_request(rng, w, "abort", si, 1, ["n"], upload=w.upload[2]),                                  # nobody's secret
+            legit_request(rng, w, "abort", si, 1, ["n"], upload=w.upload[1])]
+    res.append(("cross-upload-secret", w.swissnum, reqs))
+    # --- C30-b: a wrong write enabler on a slot that holds shares: new-only, mixed, existing, read-only
+    w = World(rng)
+    m = w.mut_si[0]
+    right = w.enabler[(w.imm_si + w.mut_si).index(m) % 2]
+    wrong = w.enabler[((w.imm_si + w.mut_si).index(m) + 1) % 2]
+    reqs = [_rtw_req(rng, w, m, right, [[0, [], [[0, "616263646566"]], None], [1, [], [[2, "7778"]], None]], [], "ok"),
+            _rtw_req(rng, w, m, wrong, [[2, [], [[0, "58585858"]], None]], [], "wrong-enabler"),
+            _rtw_req(rng, w, m, wrong, [[0, [], [[1, "5959"]], None], [3, [], [[0, "5a"]], None]], [[0, 8]], "wrong-enabler"),
+            _rtw_req(rng, w, m, wrong, [[1, [], [], 0]], [], "wrong-enabler"),
+            _rtw_req(rng, w, m, wrong, [], [[0, 6]], "wrong-enabler"),
+            _rtw_req(rng, w, m, right, [[2, [], [[0, "5151"]], None]], [[0, 6]], "ok")]
+    res.append(("wrong-enabler", w.swissnum, reqs))
+    # --- C30-c: what preceded a request on its keep-alive connection must not matter
+    w = World(rng)
+    si = w.imm_si[0]
+    t0 = w.target_of(si, 0)
+    size = w.size[si]
+    bad = [auth_value(w.other_swissnum).hex()]
+    reqs = [dict(legit_request(rng, w, "allocate", si, 0, ["a", [0, 1], size]), conn=0),
+            dict(legit_request(rng, w, "write", si, 0, ["w", "bytes 0-%d/*" % (size - 1), t0.hex()]), conn=0)]
+    for cid, (route, n, body, hdrs) in enumerate([("readImm", 0, ["n"], [bad, bad, bad]),
+                                                  ("allocate", 2, ["a", [2], size], [[], [], []]),
+                                                  ("abort", 1, ["n"], [[b"".hex()], [b"".hex()]]),
+                                                  ("lease", 0, ["n"], [bad, None, bad, bad])], start=1):
+        for h in hdrs:
+            q = legit_request(rng, w, route, si, n, body)
+            if h is not None:
+                q["auth"], q["sw"] = list(h), "wrong" if h == bad else "missing" if h == [] else "empty"
+            q["conn"] = cid
+            reqs.append(q)
+    res.append(("keep-alive-retry", w.swissnum, reqs))
+    return res
+
+
 def run(ctx):
     _prepare()
     if ctx.replay:
@@ -1414,6 +1476,19 @@ def run(ctx):
     model = ctx.model(lines)
     ctx.compare("_extract_secrets corpus", [{"kind": "secrets", "required": r, "hdrs": [h.hex() for h in hs]} for (r, hs) in CORPUS_SECRETS],
                 impl, model)
+    cases, impls, lines = [], [], []
+    for (name, sw, reqs) in corpus_histories():
+        impl, line = run_history(ctx, name, sw, reqs)
+        cases.append({"kind": "hist", "swissnum": sw.hex(), "reqs": reqs, "corpus": name})
+        impls.append(mask_head(reqs, impl))
+        lines.append(line)
+        ctx.count("corpus-history:" + name)
+    model = ctx.model(lines)
+    if model is not None:
+        ctx.compare("fixed corpus of request histories", cases, impls, [mask_head(c["reqs"], m) for c, m in zip(cases, model)])
+    if os.environ.get("VERIF_CORPUS_ONLY"):
+        ctx.note("VERIF_CORPUS_ONLY: random families skipped")
+        return
     function_level(ctx)
     # histories through the real resource tree
     cases, impls, lines = [], [], []
